@@ -111,12 +111,12 @@ fn run_suite<S: ShortGroupSignatureScheme>(em: &mut Emitter, base: &mut Rng, sui
             }
           // the hidden claims with ordinary values, and with the values whose message scalar is zero where the type has one
           // (number −2^63, scalar 0): the commitment to the hidden messages may then be the identity / carry no message term
-          for values in ["ordinary", "zero-encoded"] {
+          for values in ["ordinary", "zero-encoded", "known-zero-encoded"] {
             let mut all_v = all.clone();
-            if values == "zero-encoded" {
+            if values != "ordinary" {
                 let mut any = false;
                 for (i, l) in labels.iter().enumerate() {
-                    if hidden.iter().any(|h| h == l) {
+                    if hidden.iter().any(|h| h == l) == (values == "zero-encoded") {
                         match &all_v[i] {
                             ClaimData::Number(_) => {
                                 all_v[i] = NumberClaim::from(isize::MIN).into();
